@@ -151,7 +151,12 @@ def gen_instances(seed, si, tier):
     # ... every eighth an all group, an abstract substitution head, a nillable root of mixed type (rare constructs must be present in every run)
     s = xg.gen_schema(r, {'twowild': True, 'content': 'elements', 'all': False} if si % 8 == 5 else {'all': True, 'content': 'elements', 'twowild': False} if si % 8 == 3
                       else {'head': True, 'content': 'elements', 'twowild': False} if si % 8 == 1
-                      else {'content': 'mixed', 'nillable': True, 'twowild': False} if si % 8 == 7 else None)
+                      else {'content': 'mixed', 'nillable': True, 'twowild': False} if si % 8 == 7
+                      else dict([{'anysplit': 'other-absent', 'fany': ('set', frozenset([xg.U])), 'tns': xg.T},
+                                 {'anysplit': 'other-both', 'fany': ('set', frozenset([xg.U, xg.O])), 'tns': xg.T},
+                                 {'anysplit': 'sets', 'fany': ('set', frozenset([None, xg.U]))},
+                                 {'anysplit': 'any', 'fany': True}][(si // 8) % 4], twowild=False) if si % 8 == 2
+                      else {'xany': True, 'fany': True, 'named': True, 'twowild': False} if si % 8 == 6 else None)
     bld = xg.Builder(s)
     val = xg.Validator(s)
     info = s.info
@@ -248,10 +253,14 @@ def gen_instances(seed, si, tier):
             for u in t.base.attrs.values() if (not t.base.simple and t.base is not xg.ANYTYPE) else []:
                 if u.decl.key not in t.attrs:
                     aalpha.append((u.decl.ns, u.decl.local, xg.good_value(u.decl.type)))      # prohibited in the restriction
-            aalpha += [(None, 'zz', '1'), (xg.O, 'oa', 'v')]
+            # wildcard probes: undeclared attributes that are unqualified, in the target namespace, in two foreign
+            # namespaces (one with a global declaration); they are kept when the alphabet is cut
+            probes = [(None, 'zz', '1'), (xg.O, 'oa', 'v')]
+            if s.tns is not None:
+                probes.append((s.tns, 'tz', '1'))
             if (xg.U, 'ga') not in t.attrs:
-                aalpha += [(xg.U, 'ga', '5'), (xg.U, 'ga', 'notint')]
-            aalpha = aalpha[:9]
+                probes += [(xg.U, 'ga', '5'), (xg.U, 'ga', 'notint')]
+            aalpha = aalpha[:max(4, 10 - len(probes))] + probes
             base = bld.min_instance(rd)
             base.attrs = []
             for n in range(0, min(len(aalpha), 3 if tier == 'quick' else 5) + 1):
@@ -845,7 +854,8 @@ def stage_generated(ck, binary, tier, nproc, cov):
                     cls = 'F' if (fatal is not None or st.status != 'ok') else 'E' if bad else 'V'
                     stats['batch_disagreements_rechecked'] += 1
                     if cls != bcls:
-                        ck.violation('C08:context-dependent:%s:%s' % ('+'.join(rules) or 'valid', bline[1] if bline[1] != 'plain' else (explain(feats) or 'plain')),
+                        # situation tag: the instance's own construct class; only a plain instance is attributed to what preceded it
+                        ck.violation('C08:context-dependent:%s:%s' % ('+'.join(rules) or 'valid', explain(feats) or bline[1]),
                                      'verdict class for the same element differs between stand-alone document and as a child of the wrapper (%s vs %s)' % (cls, bcls),
                                      {'case': bcase.to_json(), 'line_in_batch': bline[0], 'stand_alone_case': c.to_json(), 'instance': xml, 'schema': w['docs'][0][1].decode()})
                     if cls != ('E' if rules else 'V'):
